@@ -126,17 +126,59 @@ func (s *State) poison(v Value) { s.setPoison(v, true) }
 func (s *State) unpoison(v Value) { s.setPoison(v, false) }
 
 func (s *State) setPoison(v Value, on bool) {
-	seen := map[int]bool{}
-	s.reachableFrom(v, seen)
-	for id := range seen {
+	for id := range s.ownedBuffers(v) {
 		o := s.heap.get(id)
 		if o.Doc != nil || strings.HasPrefix(o.Tag, "global:") || o.Tag == "json" {
-			continue // document cells and globals are not part of the pooled buffer
+			continue
 		}
 		if o.Poison != on {
 			s.heap.own(id).Poison = on
 		}
 	}
+}
+
+// ownedBuffers: the pooled object and the buffers it owns - backing arrays of
+// its slice fields, pointees of its pointer fields - but not what the
+// elements of those buffers refer to (stale interface values in a truncated
+// result buffer still point into documents and results that belong to callers).
+func (s *State) ownedBuffers(v Value) map[int]bool {
+	seen := map[int]bool{}
+	var visitVal func(x Value, depth int)
+	var visitObj func(id int, depth int)
+	visitVal = func(x Value, depth int) {
+		switch y := x.(type) {
+		case Iface:
+			if y.T != nil && depth == 0 {
+				visitVal(y.V, depth)
+			}
+		case Ptr:
+			visitObj(y.Obj, depth+1)
+		case Slice:
+			if y.Obj != 0 {
+				seen[y.Obj] = true // the backing array itself; its elements are not followed
+			}
+		case *Struct:
+			for _, f := range y.F {
+				if _, isIface := f.(Iface); isIface {
+					continue
+				}
+				visitVal(f, depth)
+			}
+		}
+	}
+	visitObj = func(id int, depth int) {
+		if id == 0 || seen[id] || depth > 3 {
+			return
+		}
+		seen[id] = true
+		o := s.heap.get(id)
+		if _, isMap := o.V.(*MapData); isMap {
+			return
+		}
+		visitVal(o.V, depth)
+	}
+	visitVal(v, 0)
+	return seen
 }
 
 func (s *State) notePoison(p Ptr, o *Obj) {
